@@ -25,6 +25,8 @@ PANIC_CALLS = [
     (re.compile(r"^<std::time::Instant as core::ops::arith::(Add|Sub)<core::time::Duration>>::(add|sub)$|^<core::time::Duration as core::ops::arith::(Add|Sub|Mul<u32>)>::(add|sub|mul)$"), "time"),
     (re.compile(r"^core::num::(div_ceil|next_multiple_of|pow|ilog2|ilog10|ilog|abs|neg)$"), "arith"),
     (re.compile(r"^core::iter::traits::iterator::Iterator::step_by$|^core::char::methods::from_digit$"), "arith"),
+    # sqlite's panicking column accessor: `Row::read::<T>(col)` = `try_read(col).unwrap()`
+    (re.compile(r"^sqlite::cursor::Row::read$"), "dbread"),
 ]
 ASSERT_KINDS = {"BoundsCheck": "bounds", "DivisionByZero": "div", "RemainderByZero": "div"}
 
@@ -48,6 +50,9 @@ def sources(fn):
                     if kind == "index":
                         ga = c.get("ga", [])
                         what = "index %s[%s]" % (strip_ty(ga[0]) if ga else "?", strip_ty(ga[1]) if len(ga) > 1 else "?")
+                    if kind == "dbread":
+                        ga = c.get("ga", [])
+                        what = "Row::read<%s>" % (ga[0] if ga else "?")
                     hit = (kind, what, t[6], t[7])
                     break
         elif t[0] == "assert":
